@@ -534,7 +534,7 @@ class FormulaMaterializer(metaclass=FormulaMaterializerMeta):
                                     )
                                     for factor in scoped_term.factors
                                 ),
-                                scale=existing_term.scale * scoped_term.scale,
+                                scale=scoped_term.scale,
                             ),
                         )
                     )
